@@ -952,7 +952,9 @@ def gen_C01(r, n, pool=None):
             w = [e['name']]
             for k in e['args']:
                 w += c01_arg(k, r, pool)
-            c.add(' '.join(w), op=e['name'])
+            ln_ = ' '.join(w)
+            if c01_in_domain(ln_):
+                c.add(ln_, op=e['name'])
     if pool is None:
         # the adversarial operand strata of the operator / constructor / rounding properties (cancellation at every depth,
         # ties, short significands, power-of-two divisors, integer-valued words, wide integers): here only the invariant is checked
